@@ -47,7 +47,7 @@ RULE = (
     "k-th of E data events raising (Exception and BaseException), and the same through the sync API; thorough = every k, "
     "quick = a seeded sample per workload. Non-trivial = the fault actually fired while at least one template async "
     "generator had been started; distinct = digest(program, entry, mode, api, k, task trace)."
-    ' Environment classes Environment / NativeEnvironment / SandboxedEnvironment; environment globals (awaitable callable, pass_context callable, object with a counting __str__); mode sync-api-early-close (a sync consumer stops after k chunks); one run in three has a peer render task of the same template; engine-owned async generators (jinja2 modules other than filters.py) are asserted like template generators.'
+    ' Environment classes Environment / NativeEnvironment / SandboxedEnvironment; environment globals (awaitable callable, pass_context callable, object with a counting __str__); mode sync-api-early-close (a sync consumer stops after k chunks); one run in three has a peer render task of the same template; engine-owned async generators (jinja2 modules other than filters.py) are asserted like template generators. Half the runs append a custom async test (applied to a constant and to data through `is`) or map(attribute=<awaitable attribute>) to the entry template.'
 )
 ASSUMPTIONS = [
     "template async generators are recognised by co_filename '<template>' at CPython's asyncgen firstiter hook",
@@ -120,6 +120,12 @@ def run(tape: Tape) -> Outcome:
     peer = tape.draw(3, "m") == 2 and mode in (0, 1, 2, 3)
     peer_data = make_async_data(tape, Events(), gate_stream="g2", data_stream="d2") if peer else None
     out.count("runs_with_peer_render", 1 if peer else 0)
+    # (one run in two) a custom ASYNC test applied to a constant and to data, and map(attribute=<awaitable attribute>)
+    xt = tape.draw(4, "m")
+    if xt >= 2:
+        P.templates[entry] += "{% if 3 is aodd %}o{% else %}e{% endif %}{{ n1 is aodd }}" if xt == 2 else \
+            "{{ alo|map(attribute='ap')|join(',') }}{% if 4 is aodd %}o{% endif %}"
+        out.count("runs_with_async_test_or_awaitable_attribute")
     cfg_key = ("c36", ae, lc, envcls)
     from jinja2.nativetypes import NativeEnvironment
     from jinja2.sandbox import SandboxedEnvironment
@@ -152,6 +158,16 @@ def run(tape: Tape) -> Outcome:
             return "GStr()"
 
     env.globals.update(gf=gf, gcx=gcx, gso=GStr(), gn=3, gd={"k1": 1, "k2": [2]})
+
+    async def aodd(v):
+        events.ev("acall")
+        await A.gate(tape)
+        try:
+            return int(v) % 2 == 1
+        except Exception:
+            return False
+
+    env.tests["aodd"] = aodd
 
     policy = A.install_policy()
     policy.created.clear()
